@@ -792,7 +792,22 @@ func (c *Ctx) isPure(fn *ssa.Function, seen map[*ssa.Function]bool) bool {
 		}
 		switch x := in.(type) {
 		case *ssa.Store:
-			if _, local := x.Addr.(*ssa.Alloc); !local {
+			// a store into a local cell, or into a field/element of a local composite value
+			base := x.Addr
+			for {
+				if fa, ok := base.(*ssa.FieldAddr); ok {
+					base = fa.X
+					continue
+				}
+				if ia, ok := base.(*ssa.IndexAddr); ok {
+					if _, isArr := derefType(ia.X.Type()).Underlying().(*types.Array); isArr {
+						base = ia.X
+						continue
+					}
+				}
+				break
+			}
+			if _, local := base.(*ssa.Alloc); !local {
 				pure = false
 			}
 		case *ssa.MapUpdate, *ssa.Send, *ssa.Go, *ssa.Defer, *ssa.Panic, *ssa.RunDefers:
@@ -817,6 +832,10 @@ func (c *Ctx) isPure(fn *ssa.Function, seen map[*ssa.Function]bool) bool {
 				switch f.Pkg.Pkg.Path() {
 				case "strings", "strconv", "unicode", "unicode/utf8", "math":
 					return
+				case "reflect":
+					if f.Name() == "DeepEqual" {
+						return
+					}
 				}
 			}
 			pure = false
